@@ -172,3 +172,67 @@ Proof.
     + apply (rmslice_sub_reducible t a b t1 Hwf H1 Hle).
     + apply (IH t1 t' Hwf1 Hord Hr).
 Qed.
+
+(* ------------------------------------------------------------------ *)
+(* two adjacent removals are one removal of the union                   *)
+(* ------------------------------------------------------------------ *)
+Definition shifted (lo mid r1 : Z) : Z :=
+  if r1 <? lo then r1 else if r1 <=? mid then lo else r1 - (mid - lo).
+
+Lemma shifted_lt : forall lo mid r, r < lo -> shifted lo mid r = r.
+Proof. intros. unfold shifted. destruct (r <? lo) eqn:E; [reflexivity|apply Z.ltb_ge in E; lia]. Qed.
+Lemma shifted_in : forall lo mid r, lo <= r <= mid -> shifted lo mid r = lo.
+Proof. intros. unfold shifted. destruct (r <? lo) eqn:E; [apply Z.ltb_lt in E; lia|].
+  destruct (r <=? mid) eqn:E2; [reflexivity|apply Z.leb_gt in E2; lia]. Qed.
+Lemma shifted_ge : forall lo mid r, lo <= mid -> mid <= r -> shifted lo mid r = r - (mid - lo).
+Proof. intros. unfold shifted. destruct (r <? lo) eqn:E; [apply Z.ltb_lt in E; lia|].
+  destruct (r <=? mid) eqn:E2; [apply Z.leb_le in E2; lia|reflexivity]. Qed.
+
+Lemma spec_rm_adjacent_gen : forall lo mid w2 l r1, lo <= mid -> 0 <= w2 ->
+  spec_rm lo (lo + w2) (shifted lo mid r1) (spec_rm lo mid r1 l) = spec_rm lo (mid + w2) r1 l.
+Proof.
+  intros lo mid w2 l. induction l as [|[p b] l IH]; intros r1 Hlm Hw; [reflexivity|].
+  destruct b; cbn [spec_rm].
+  - specialize (IH (r1 + 1) Hlm Hw).
+    destruct (Z_lt_le_dec r1 lo) as [HA|HA].
+    + (* below the range *)
+      assert (E1 : (lo <=? r1) = false) by (apply Z.leb_gt; lia).
+      rewrite E1. cbn [andb spec_rm].
+      rewrite shifted_lt by lia. rewrite E1. cbn [andb]. f_equal.
+      destruct (Z_lt_le_dec (r1 + 1) lo) as [HB|HB].
+      * rewrite shifted_lt in IH by lia. exact IH.
+      * rewrite shifted_in in IH by lia. replace (r1 + 1) with lo by lia.
+        replace (r1 + 1) with lo in IH by lia. exact IH.
+    + destruct (Z_lt_le_dec r1 mid) as [HB|HB].
+      * (* inside the first range *)
+        assert (E1 : (lo <=? r1) = true) by (apply Z.leb_le; lia).
+        assert (E2 : (r1 <? mid) = true) by (apply Z.ltb_lt; lia).
+        assert (E3 : (r1 <? mid + w2) = true) by (apply Z.ltb_lt; lia).
+        rewrite E1, E2, E3. cbn [andb].
+        rewrite shifted_in by lia. rewrite shifted_in in IH by lia. exact IH.
+      * (* at or after mid *)
+        assert (E1 : (lo <=? r1) = true) by (apply Z.leb_le; lia).
+        assert (E2 : (r1 <? mid) = false) by (apply Z.ltb_ge; lia).
+        rewrite E1, E2. cbn [andb spec_rm].
+        rewrite shifted_ge by lia. rewrite shifted_ge in IH by lia.
+        assert (E4 : (lo <=? r1 - (mid - lo)) = true) by (apply Z.leb_le; lia).
+        rewrite E4. cbn [andb].
+        replace (r1 - (mid - lo) + 1) with (r1 + 1 - (mid - lo)) by lia.
+        destruct (r1 <? mid + w2) eqn:E5.
+        -- assert (E6 : (r1 - (mid - lo) <? lo + w2) = true) by (apply Z.ltb_lt; apply Z.ltb_lt in E5; lia).
+           rewrite E6. exact IH.
+        -- assert (E6 : (r1 - (mid - lo) <? lo + w2) = false) by (apply Z.ltb_ge; apply Z.ltb_ge in E5; lia).
+           rewrite E6. f_equal. exact IH.
+  - f_equal. apply IH; assumption.
+Qed.
+
+(* removing [lo,mid) and then, in the new numbering, [lo,lo+w2) is removing [lo,mid+w2) at once *)
+Lemma spec_rm_adjacent : forall lo mid w2 l, 0 <= lo <= mid -> 0 <= w2 ->
+  spec_rm lo (lo + w2) 0 (spec_rm lo mid 0 l) = spec_rm lo (mid + w2) 0 l.
+Proof.
+  intros lo mid w2 l [H0 Hlm] Hw.
+  pose proof (spec_rm_adjacent_gen lo mid w2 l 0 Hlm Hw) as E.
+  destruct (Z.eq_dec lo 0) as [->|Hne].
+  - rewrite shifted_in in E by lia. exact E.
+  - rewrite shifted_lt in E by lia. exact E.
+Qed.
